@@ -493,7 +493,7 @@ def check_kani_property(prop, spec, tier):
         "outside": spec.get("outside", ""),
         "harness_queries": len(hrecords),
         "harnesses": hrecords,
-        "queries_discharged": len([x for x in hrecords if x["verdict"] == "pass"]),
+        "queries_discharged": len([x for x in hrecords if str(x["verdict"]).startswith("pass")]),
         "solver_time_s": round(solver_s, 3),
         "cglue_functions_reached": sorted(reached)[:150],
         "cglue_functions_reached_n": len(reached),
